@@ -14,6 +14,7 @@ from fractions import Fraction
 warnings.filterwarnings('ignore')
 
 WIRE = []          # packets recorded at the interface since the last drain
+CUR = {'target': None}
 
 
 # ---- canonical rendering -----------------------------------------------------------------
@@ -32,6 +33,8 @@ def ren_arg(a):
     if isinstance(a, str):
         if a in ('[', ']'):
             return a
+        if '/SC_' in a and a.endswith('.wav'):
+            return 'sPATH'               # temporary file of load_list
         return 's' + a.replace(' ', '_')
     if isinstance(a, (bytes, bytearray)):
         return 'x' + bytes(a).hex()
@@ -59,6 +62,8 @@ def ren_packet(p):
         return 'M ' + ren_msg(p[1])
     if p[0] == 'S':                      # NetAddr.sync (the '/sync id' round trip itself is not modelled)
         return 'S'
+    if p[0] == 'X':                      # sent to another server's address
+        return f'X {p[1]} ' + ren_msg(p[2])
     if p[0] == 'E':                      # the real encoder rejected it
         return f'E {p[1]} ' + ren_msg(p[2])
     elems = []
@@ -237,6 +242,33 @@ def run_op(line, env):
             b = (AudioBus if op == 'abusx' else ControlBus)(ch, s, idx)
             env['buses'].append(b)
             return f'ok b{b.index}'
+        if op == 'subbus':
+            b = p.handle(); off = p.value(); ch = p.value()
+            nb = b.sub_bus(off, ch)
+            env['buses'].append(nb)
+            return f'ok b{nb.index}'
+        if op in ('bread', 'bloadlist', 'ballocread', 'bcue'):
+            u = p.handle()
+            if u.bufnum is None:
+                return 'skip'            # these methods have no already-freed guard (listed omission)
+            if op == 'bread':
+                u.read('/tmp/c17in.wav', p.value(), p.value(), p.value(), p.value())
+            elif op == 'bloadlist':
+                u.load_list([0.5, 0.25], p.value())
+                try:
+                    import os
+                    os.unlink(u.path)
+                except Exception:
+                    pass
+            elif op == 'ballocread':
+                u.alloc_read('/tmp/c17in.wav', p.value(), p.value(), p.value())
+            else:
+                u.cue('/tmp/c17in.wav', p.value(), p.value())
+            return 'ok'
+        if op == 'bwrite':
+            u = p.handle(); hdr = p.value()
+            u.write('/tmp/c17out', hdr, 'int24', p.value(), p.value(), p.value(), p.value())
+            return 'ok'
         if op == 'busfree':
             p.handle().free(); return 'ok'
         if op in ('cset', 'cpairs'):
@@ -459,6 +491,7 @@ def fresh_server(opts):
     s._set_client_id(opts.get('client_id', 0))
     lat = opts.get('latency')
     s.latency = None if lat is None else float(Fraction(lat))
+    s._status_watcher.sample_rate = 44100      # as reported by a running server (load_list writes a wav header)
     if opts.get('running'):              # "booted": node.register() is effective (NodeWatcher state)
         s._status_watcher._has_booted = True
         s._status_watcher._notified = True
@@ -471,7 +504,9 @@ def run_case(case, binding):
     global WIRE
     s = fresh_server(case.get('opts', {}))
     old_default = Server.default
-    Server.default = s
+    if case.get('opts', {}).get('default', True):
+        Server.default = s           # else: a second, non-default server
+    CUR['target'] = s.addr._target
     WIRE = []
     env = {'server': s, 'nodes': [], 'buses': [], 'bufs': []}
     try:
@@ -514,6 +549,9 @@ def run(payload):
     build_msg, build_bundle = iface._build_msg, iface._build_bundle
 
     def rec_msg(target, *args):
+        if target != CUR['target']:            # a command of this server's objects on another socket
+            WIRE.append(('X', f'{target[1]}', list(args)))
+            return
         try:                                   # the real encoder must accept what is sent
             build_msg(0.0, list(args))
             WIRE.append(('M', list(args)))
@@ -522,6 +560,9 @@ def run(payload):
 
     def rec_bundle(target, time, *elements):
         els = [list(e) if isinstance(e, (list, tuple)) else e for e in elements]
+        if target != CUR['target']:
+            WIRE.append(('X', f'{target[1]}', ['<bundle>', *els]))
+            return
         try:
             dgram = build_bundle(0.0, [time, *els]).dgram
             if len(dgram) > 65504:           # NetAddr._MAX_UDP_DGRAM_SIZE: cannot be sent
